@@ -25,6 +25,7 @@ pub fn scenario_regime(tier: &str, poor_debt: bool) -> (Life, Bounds) {
         big: false,
         tick_faults: false,
         bystander: false,
+        extensions: false,
     };
     let b = if th {
         Bounds { max_depth: 400, wall_cap_s: 1500.0, ..Default::default() }
